@@ -91,6 +91,10 @@ impl Results {
 
     /// C09: derived metadata mirrors the source declaration
     pub fn meta(&mut self, def: &str, ti: &Type<MetaForm>, exp: &ExpMeta) {
+        self.meta_with(def, ti, exp, None)
+    }
+
+    pub fn meta_with(&mut self, def: &str, ti: &Type<MetaForm>, exp: &ExpMeta, ti_meta: Option<MetaType>) {
         self.bump("C09");
         let r = (|| -> Result<(), (String, String)> {
             if ti.path.segments != exp.path {
@@ -137,6 +141,24 @@ impl Results {
         })();
         if let Err((k, m)) = r {
             self.fail("C09", def, &k, m);
+        }
+        // the same view through a registry: parameter names in order, each with the id of its argument or none
+        if let Some(root) = ti_meta {
+            let (reg, id) = Self::registry_for(root);
+            if let Some(p) = reg.resolve(id) {
+                let got: Vec<(String, bool)> = p.type_params.iter().map(|x| (x.name.clone(), x.ty.is_some())).collect();
+                let want: Vec<(String, bool)> = exp.params.iter().map(|x| (x.0.to_string(), x.1.is_some())).collect();
+                if got != want {
+                    self.fail("C09", def, "param-type-portable", format!("{def}: in the registry the type parameters are {got:?} (name, has a type id), the declaration gives {want:?}"));
+                }
+                for (g, e) in p.type_params.iter().zip(&exp.params) {
+                    if let (Some(gid), Some(m)) = (&g.ty, &e.1) {
+                        if image(&reg, *m, gid.id).is_err() {
+                            self.fail("C09", def, "param-type-portable", format!("{def}: parameter {} does not carry the id of its argument's type", e.0));
+                        }
+                    }
+                }
+            }
         }
     }
 
